@@ -1,9 +1,14 @@
-use svgdx::Result;
+use std::process::ExitCode;
 
 use svgdx::cli::{get_config, run};
 
-fn main() -> Result<()> {
-    run(get_config()?)?;
-
-    Ok(())
+fn main() -> ExitCode {
+    // Report errors through `Display`: the `Debug` form (what returning the
+    // `Result` from `main` prints) lists the elements of a multi-element error
+    // in hash-map order, which differs from run to run.
+    if let Err(e) = get_config().and_then(run) {
+        eprintln!("Error: {e}");
+        return ExitCode::FAILURE;
+    }
+    ExitCode::SUCCESS
 }
